@@ -1082,6 +1082,8 @@ def _filter_leaks(m: Model) -> T.Tuple[T.List[T.Tuple[Loop, Node, T.List[str]]],
         bad = [cfg.nodes[i] for i in sorted(rej & set(en) & body_ids)]
         n_acc = len(acc & set(en) & body_ids)
         if not n_acc:
+            if not (set(en) & body_ids):
+                continue       # a loop over the collection that performs no effect at all (e.g. collecting failed scripts) is not an installer loop
             raise Undecided(f'Installer.{lp.method}: loop over {lp.coll} has no effect even for an accepted item')
         if bad:
             # a test of the item through some other Installer method the rule cannot summarise: not a proven leak
@@ -1863,6 +1865,8 @@ def r4b(ctx: RuleCtx) -> None:
                     raise Undecided(f'{site_q}: removal target `{nm}` is not a parameter that receives the decoded line unchanged')
                 nm = bound[nm].id   # type: ignore[attr-defined]
             defs = [d_ for d_ in fl.defs.get(nm, []) if d_ is not loop.iter]
+            if not defs and nm == line:
+                defs = [ast.Name(id=line, ctx=ast.Load())]      # the raw line itself is handed to the removal
             if len(defs) != 1:
                 raise Undecided(f'do_uninstall: `{nm}` has {len(defs)} bindings; the decoding of a log line is not a single expression')
             decoded[nm] = defs[0]
